@@ -617,7 +617,7 @@ def discharge(premises, goal, timeout_ms=10000, hints=None, hint_arrays=None):
         inst = instantiate(quant, ints, strs, cap=4000)
         fs = base + inst + ord_axioms(strs, base + inst)
         fs = fs + term_axioms(fs)
-        r, s, dt = check(fs, min(timeout_ms, 2000))
+        r, s, dt = check(fs, min(timeout_ms, 2000 + len(inst) // 3))
         if r != z3.unsat:
             # second round: terms created by the first-round instances, for the
             # single-variable clauses only (keeps the instance count linear)
